@@ -6,7 +6,8 @@
 // the abstract predicate `own_intersects` of unit U19.1. Lemmas: the test is monotone in the requested definition and
 // implied for the all-inclusive definition (so the offered set only grows with the definition).
 // Containers (IntSet, BTreeSet, HashMap, RangeSet) are opaque types here whose operations carry set-view contracts
-// (assumed; IntSet::is_empty is proved in U14.3). Entry::design_space_intersects (a for loop over a HashMap) is assumed.
+// (assumed; IntSet::is_empty is proved in U14.3). Entry::design_space_intersects is proved with its `for` loop desugared mechanically (//@desugarfor) over an ASSUMED model of
+// HashMap iteration (every entry visited, some order) and of RangeSet::intersection (non-empty iff the sets share a point).
 use vstd::prelude::*;
 verus! {
 //@prelude std_combinators
@@ -45,9 +46,42 @@ impl<K, V> HashMap<K, V> {
     pub uninterp spec fn view(&self) -> Map<K, V>;
     #[verifier::external_body]
     pub fn is_empty(&self) -> (r: bool) ensures r == (forall|k: K| !self@.dom().contains(k)) { unimplemented!() }
+    #[verifier::external_body]
+    pub fn get<'a>(&'a self, k: &K) -> (r: Option<&'a V>)
+        ensures r is Some == self@.dom().contains(*k), r is Some ==> *r->Some_0 == self@[*k] { unimplemented!() }
+    // ASSUMED (std): iteration visits every (key, value) of the map, in some order
+    #[verifier::external_body]
+    pub fn iter<'a>(&'a self) -> (r: MapIter<'a, K, V>)
+        ensures
+            forall|i: int| 0 <= i < r.rem().len() ==> self@.dom().contains((#[trigger] r.rem()[i]).0) && self@[r.rem()[i].0] == r.rem()[i].1,
+            forall|k: K| self@.dom().contains(k) ==> exists|i: int| 0 <= i < r.rem().len() && (#[trigger] r.rem()[i]).0 == k,
+    { unimplemented!() }
+}
+#[verifier::external_body] #[verifier::accept_recursive_types(K)] #[verifier::accept_recursive_types(V)]
+pub struct MapIter<'a, K, V> { _p: core::marker::PhantomData<&'a (K, V)> }
+impl<'a, K, V> MapIter<'a, K, V> {
+    pub uninterp spec fn rem(&self) -> Seq<(K, V)>;
+    #[verifier::external_body]
+    pub fn next(&mut self) -> (r: Option<(&'a K, &'a V)>)
+        ensures match r {
+            Some(kv) => old(self).rem().len() > 0 && *kv.0 == old(self).rem()[0].0 && *kv.1 == old(self).rem()[0].1
+                && final(self).rem() == old(self).rem().skip(1),
+            None => old(self).rem().len() == 0 && final(self).rem() == old(self).rem(),
+        }
+    { unimplemented!() }
+}
+#[verifier::external_body] #[verifier::accept_recursive_types(T)] pub struct RsIntersection<'a, T> { _p: core::marker::PhantomData<&'a T> }
+impl<'a> RsIntersection<'a, Fixed> {
+    pub uninterp spec fn nonempty(&self) -> bool;
+    #[verifier::external_body]
+    pub fn next(&mut self) -> (r: Option<core::ops::RangeInclusive<Fixed>>) ensures r.is_some() == old(self).nonempty() { unimplemented!() }
 }
 impl RangeSet<Fixed> {
     pub uninterp spec fn mem(&self, x: Fixed) -> bool;
+    // ASSUMED (the intersection iterator; bounded Kani unit U14.5i): it yields a range iff the two sets share a point
+    #[verifier::external_body]
+    pub fn intersection<'a>(&'a self, other: &'a RangeSet<Fixed>) -> (r: RsIntersection<'a, Fixed>)
+        ensures r.nonempty() == (exists|x: Fixed| self.mem(x) && other.mem(x)) { unimplemented!() }
 }
 
 //@require source=pm seq="pub enum FeatureSet { Set(BTreeSet<Tag>), All, }"
@@ -192,14 +226,40 @@ impl Entry {
         }
 //@end
 
-    // ASSUMED (a `for (tag, segments) in &HashMap` loop: no iteration support for the opaque map type)
-    #[verifier::external_body]
-    fn design_space_intersects(
-        a: &HashMap<Tag, RangeSet<Fixed>>,
-        b: &HashMap<Tag, RangeSet<Fixed>>,
-    ) -> (r: bool)
+//@extract source=pm container="impl Entry" fn=design_space_intersects ret=r
+//@rewrite "in a {" => "in a.iter() {"
+//@desugarfor nth=0 name=verif_it raw
+//@spec
         ensures r == (exists|t: Tag, x: Fixed| a@.dom().contains(t) && b@.dom().contains(t) && a@[t].mem(x) && b@[t].mem(x))
-    { unimplemented!() }
+//@at before "let mut verif_it ="
+        let ghost mut n: int = 0;
+//@at after "let mut verif_it = a.iter();"
+        let ghost all = verif_it.rem();
+//@at loop "let mut verif_it ="
+            invariant
+                0 <= n <= all.len(), verif_it.rem() == all.skip(n),
+                forall|i: int| 0 <= i < all.len() ==> a@.dom().contains((#[trigger] all[i]).0) && a@[all[i].0] == all[i].1,
+                forall|k: Tag| a@.dom().contains(k) ==> exists|i: int| 0 <= i < all.len() && (#[trigger] all[i]).0 == k,
+                forall|j: int, x: Fixed| 0 <= j < n && b@.dom().contains((#[trigger] all[j]).0) ==> !(all[j].1.mem(x) && #[trigger] b@[all[j].0].mem(x)),
+            ensures n == all.len()
+            decreases all.len() - n
+//@at after "else { break; };"
+            proof {
+                assert(all.skip(n)[0] == all[n]);
+                assert(all.skip(n).skip(1) == all.skip(n + 1));
+                n = n + 1;
+            }
+//@at loop-after "let mut verif_it ="
+        proof {
+            assert(n == all.len());
+            assert forall|t: Tag, x: Fixed| !(a@.dom().contains(t) && b@.dom().contains(t) && a@[t].mem(x) && b@[t].mem(x)) by {
+                if a@.dom().contains(t) && b@.dom().contains(t) {
+                    let i = choose|i: int| 0 <= i < all.len() && (#[trigger] all[i]).0 == t;
+                    assert(!(all[i].1.mem(x) && b@[all[i].0].mem(x)));
+                }
+            }
+        }
+//@end
 }
 
 // ---- monotonicity (C19: "it only grows when the definition grows and is contained in the set offered for the
